@@ -84,30 +84,19 @@ def GoFile.typeNames (f : GoFile) : List Bytes := f.decls.filterMap Decl.typeNam
 def GoFile.topNames (f : GoFile) : List Bytes := f.decls.filterMap Decl.topName?
 def GoFile.importNames (f : GoFile) : List Bytes := f.imports.map importName
 
-def GoFile.funcs (f : GoFile) : List Func :=
-  f.decls.filterMap fun d => match d with | .func g => some g | _ => none
+def Decl.func? : Decl → Option Func
+  | .func g => some g
+  | _ => none
+
+def GoFile.funcs (f : GoFile) : List Func := f.decls.filterMap Decl.func?
 
 /-! ## pkgOk, importsOk, topLevelOk -/
 
 def pkgOk (f : GoFile) : Bool := validName f.pkg && f.pkg != str "main"
 
-mutual
-def GoTy.quals' : GoTy → List Bytes
-  | .name _ => []
-  | .qual p _ => [p]
-  | .ptr t => t.quals'
-  | .slice t => t.quals'
-  | .map t => t.quals'
-  | .struct fs => fs.quals'
-  | .func p r => p.quals' ++ r.quals'
-def GoFields.quals' : GoFields → List Bytes
-  | .nil => []
-  | .cons _ t _ r => t.quals' ++ r.quals'
-end
-
 def Decl.pkgRefs : Decl → List Bytes
-  | .type _ t => t.quals'
-  | .iface _ ms => (ms.map fun m => m.params.quals' ++ m.results.quals').flatten
+  | .type _ t => t.quals
+  | .iface _ ms => (ms.map fun m => m.params.quals ++ m.results.quals).flatten
   | .func f => f.pkgUses
 
 def GoFile.pkgRefs (f : GoFile) : List Bytes := (f.decls.map Decl.pkgRefs).flatten
@@ -281,7 +270,6 @@ def methodsOk (f : GoFile) : Bool := f.receiverTypes.all (receiverOk f)
 def defineOk (declared ns : List Bytes) : Bool :=
   ns.all paramNameOk && distinct ns && ns.any (fun n => !declared.contains n && n != [underscore])
 
-mutual
 /-- `declared`: names declared so far in the current block -/
 def scopeStmts (declared : List Bytes) : List Stmt → Bool
   | [] => true
@@ -294,7 +282,6 @@ def scopeStmts (declared : List Bytes) : List Stmt → Bool
       && scopeStmts declared r
     | .caseBlock _ b => scopeStmts [] b && scopeStmts declared r
     | _ => scopeStmts declared r
-end
 
 def Func.signatureNames (g : Func) : List Bytes :=
   (match g.recv with | some r => if r.name.isEmpty then [] else [r.name] | none => [])
@@ -379,7 +366,6 @@ def dispatchCallOk (decls : List Decl) (env : Env) (path : List Bytes) (as : Lis
     | none => false
   | _ => false
 
-mutual
 def typedStmts (decls : List Decl) (env : Env) : List Stmt → Bool
   | [] => true
   | s :: r =>
@@ -395,7 +381,6 @@ def typedStmts (decls : List Decl) (env : Env) : List Stmt → Bool
     | .closure p rs b => typedStmts decls (p.toEnv ++ rs.toEnv ++ env) b && typedStmts decls env r
     | .caseBlock _ b => typedStmts decls env b && typedStmts decls env r
     | _ => typedStmts decls env r
-end
 
 def Func.env (g : Func) : Env :=
   (match g.recv with
@@ -408,26 +393,29 @@ def typedOk (f : GoFile) : Bool := f.funcs.all fun g => typedStmts f.decls g.env
 /-! ## noCycleOk -/
 
 mutual
-/-- does `ty` contain the declared type `target` without indirection (through struct fields and declared
-    names only; pointer, slice, map, function and package-qualified types are indirections) -/
-def containsDirect (decls : List Decl) (target : Bytes) : Nat → GoTy → Bool
-  | fuel, .name n =>
-    n == target ||
-    (match fuel with
-     | 0 => false
-     | fuel' + 1 => match lookupType decls n with
-       | some t => containsDirect decls target fuel' t
-       | none => false)
-  | fuel, .struct fs => containsDirectFields decls target fuel fs
-  | _, _ => false
-def containsDirectFields (decls : List Decl) (target : Bytes) : Nat → GoFields → Bool
-  | _, .nil => false
-  | fuel, .cons _ t _ r => containsDirect decls target fuel t || containsDirectFields decls target fuel r
+/-- the type names `ty` contains without indirection (through struct fields only; pointer, slice, map,
+    function and package-qualified types are indirections) -/
+def GoTy.directNames : GoTy → List Bytes
+  | .name n => [n]
+  | .struct fs => fs.directNames
+  | _ => []
+def GoFields.directNames : GoFields → List Bytes
+  | .nil => []
+  | .cons _ t _ r => t.directNames ++ r.directNames
 end
+
+/-- one step: the names directly contained in the declarations of `ns` -/
+def expandNames (decls : List Decl) (ns : List Bytes) : List Bytes :=
+  ((ns.map fun n => match lookupType decls n with | some t => t.directNames | none => []).flatten).eraseDups
+
+/-- is `target` among the names reachable from `ns` in at most `fuel` expansion steps -/
+def reachesName (decls : List Decl) (target : Bytes) : Nat → List Bytes → Bool
+  | 0, ns => ns.contains target
+  | fuel + 1, ns => ns.contains target || reachesName decls target fuel (expandNames decls ns)
 
 def noCycleOk (f : GoFile) : Bool :=
   f.decls.all fun d => match d with
-    | .type n t => !containsDirect f.decls n f.decls.length t
+    | .type n t => !reachesName f.decls n f.decls.length t.directNames
     | _ => true
 
 /-! ## the conjunction -/
